@@ -1372,6 +1372,22 @@ func (env *specEnv) call(x *ast.CallExpr) (T, error) {
 	case *ast.Ident:
 		name = fn.Name
 	case *ast.SelectorExpr:
+		// pkg.pred(args): a predicate of another package, by its package name
+		if id, ok := fn.X.(*ast.Ident); ok {
+			_, isVar := env.vars[id.Name]
+			_, isCell := env.cells[id.Name]
+			if !isVar && !isCell {
+				for path, pk := range e.w.ByPath {
+					if strings.HasPrefix(path, modPath) && pk.Types.Name() == id.Name {
+						if _, ok := e.db.preds[path+"."+fn.Sel.Name]; ok {
+							sub := *env
+							sub.pkg = pk.Types
+							return sub.call(&ast.CallExpr{Fun: ast.NewIdent(fn.Sel.Name), Args: x.Args})
+						}
+					}
+				}
+			}
+		}
 		// method call on a value: pure interface methods / pure functions
 		return env.methodCall(fn, x.Args)
 	case *ast.ParenExpr:
